@@ -27,7 +27,7 @@ def check_flag(ck, view, tag=""):
     b = P.match(Cb("cb.not", V("d")), flag)
     if not ck.require(b is not None, "TERM", tag + "flag/negation", "is_not_dummy = 1 - is_dummy", fe.loc, T.show(flag)[:300]):
         return flag
-    leaves = leaf.and_leaves(b["d"])
+    leaves = leaf.and_leaves_expanded(view, b["d"])
     got = set()
     bad = []
     for lf in leaves:
